@@ -690,6 +690,9 @@ def parts(ctx):
         A(name="arr-%s-d2-tern" % nm, profile=(lambda i, e_: lambda e: P.arr_profile(e, i, e_))(i, e_),
           depth=2, shards=4, mid_ops=_names("select", "store"), top_ops=_names("store", "arrite"), max_new=1) \
             if not (q and nm == "bv1-bool") else None
+    # ---- cross-theory terms
+    A(name="mixed-d2", profile=lambda e: P.mixed_profile(e), depth=2, shards=32, max_new=1,
+      dom={INT: (-1, 0, 2), STRING: ("", "a", "12")})
     # ---- uninterpreted functions
     A(name="uf-d2", profile=P.uf_profile, depth=2, shards=8 if q else 32, dom={INT: (0, 1, 2)},
       max_new=1 if q else None)
